@@ -1,6 +1,9 @@
 // C01 harness: Pass::readPass on arbitrary pass bytes (exact-size heap buffer), with the Silf and Face of a base font.
 // usage: h_pass <base font.ttf>
-// lines:  collok <passtype>                 -> 0|1   (may a pass of this type carry collision flags in this font?)
+// lines:  classmap <wide 0|1> <hex bytes> <cid.x,cid.x,…>     Silf::readClassMap on the bytes (exact-size buffer), then for every probe
+//            with cid < numClasses (what the code loader guarantees) or cid > numClasses: getClassGlyph(cid, x) and findClassIndex(cid, x)
+//            -> fault | E<code> | ok <numClasses>,<numLinear> O:<digest offsets> D:<digest data> G:<v,…> F:<v,…>
+//         collok <passtype>                 -> 0|1   (may a pass of this type carry collision flags in this font?)
 //         pass <subtable_base> <passtype> <collok> <hex bytes>       (collok must be what `collok <passtype>` answers)
 //            -> fault | E<code> (one of the layout errors) | ranges (E_BADRANGE) | states E<code> (E_BADSTATE, E_BADRULEMAPPING)
 //             | rulemap (E_BADRULENUM) | later (refused in the code loader or the rule records)
@@ -53,7 +56,35 @@ int main(int argc, char **argv) {
         g_faults = 0;
         std::string out = "bad-op";
         std::vector<uint8_t> b;
-        if (w.size() == 2 && w[0] == "collok") {
+        if (w.size() == 4 && w[0] == "classmap" && parse_hex(w[2], b)) {
+            bool wide = atoi(w[1].c_str()) != 0;
+            Silf *sf = new Silf();
+            Exact e(b);
+            Error err;
+            size_t r = sf->readClassMap(e.p, b.size(), wide ? 0x00040000 : 0x00030000, err);
+            if (g_faults) out = "fault";
+            else if (r == 0xFFFFFFFF || err) { snprintf(buf, sizeof buf, "E%u", (unsigned)err.error()); out = buf; }
+            else {
+                std::vector<unsigned> offs, data;
+                for (unsigned k = 0; k <= sf->m_nClass; ++k) offs.push_back(sf->m_classOffsets[k]);
+                for (unsigned k = 0; k < r; ++k) data.push_back(sf->m_classData[k]);
+                snprintf(buf, sizeof buf, "ok %u,%u", (unsigned)sf->m_nClass, (unsigned)sf->m_nLinear);
+                out = std::string(buf) + " O:" + digestv(offs) + " D:" + digestv(data);
+                std::string g = " G:", f = " F:";
+                std::stringstream ps(w[3]); std::string pr; bool first = true;
+                while (std::getline(ps, pr, ',')) {
+                    size_t dot = pr.find('.');
+                    if (dot == std::string::npos) continue;
+                    unsigned cid = atoi(pr.substr(0, dot).c_str()), x = atoi(pr.substr(dot + 1).c_str());
+                    if (cid == sf->m_nClass) continue;            // the one class number the look-ups do not guard (the code loader refuses it)
+                    snprintf(buf, sizeof buf, "%s%u", first ? "" : ",", (unsigned)sf->getClassGlyph(cid, x)); g += buf;
+                    snprintf(buf, sizeof buf, "%s%u", first ? "" : ",", (unsigned)sf->findClassIndex(cid, x)); f += buf;
+                    first = false;
+                }
+                if (g_faults) out = "fault"; else out += g + f;
+            }
+            delete sf;
+        } else if (w.size() == 2 && w[0] == "collok") {
             int pt = atoi(w[1].c_str());
             bool ok = pt >= PASS_TYPE_POSITIONING && silf->aCollision() && face->glyphs().hasBoxes() && (silf->flags() & 0x20);
             out = ok ? "1" : "0";
